@@ -780,6 +780,64 @@ fn job_keys(max_len: usize, first: usize) -> Acc {
 }
 
 // ------------------------------------------------------------------------------------------
+// Child: payload-size sweep. "Every stored object reads back byte-identical for every payload":
+// the codec works in 32 KiB windows, so every size in a band around k * 32 KiB is stored and read
+// back, for several content patterns (highly repetitive content compresses to almost nothing and
+// is where inflate finishes its input long before its output).
+// ------------------------------------------------------------------------------------------
+
+fn sweep_payload(pattern: &str, len: usize) -> Vec<u8> {
+    match pattern {
+        "const" => vec![b'A'; len],
+        "pair" => (0..len).map(|i| if i % 2 == 0 { b'a' } else { b'\n' }).collect(),
+        "record" => {
+            let rec = br#"{"benchmark":"x","value":1.0,"unit":"ns"},"#;
+            (0..len).map(|i| rec[i % rec.len()]).collect()
+        }
+        "counter" => (0..len).map(|i| (i / 7) as u8).collect(),
+        "random" => xorshift_bytes(len, 0x51ce_5eed ^ len as u64),
+        other => panic!("unknown pattern {other}"),
+    }
+}
+
+fn job_sizes(pattern: &str, k: usize, below: usize, above: usize) -> Acc {
+    let mut acc = Acc::default();
+    let rt = rt();
+    let dir = tmp_base().join(format!("sizes-{pattern}-{k}"));
+    let _ = std::fs::remove_dir_all(&dir);
+    let st = store(&dir.join("store"));
+    let centre = k * 32 * 1024;
+    let lo = centre.saturating_sub(below);
+    for len in lo..=centre + above {
+        let bytes = sweep_payload(pattern, len);
+        let key = format!("v1/sz/{pattern}-{len}.json");
+        acc.evals += 1;
+        acc.hashes.push(vcommon::hash_str(&format!("size|{pattern}|{len}")));
+        let replay = json!({"part": "sizes", "job": format!("sizes|{pattern}|{k}|{below}|{above}"), "len": len});
+        if let Err(e) = rt.block_on(st.put(&key, &bytes)) {
+            acc.violation("payload-roundtrip:put-failed", format!("put of a {len}-byte '{pattern}' payload failed: {e}"), replay);
+            continue;
+        }
+        match rt.block_on(st.get(&key)) {
+            Ok(back) if back == bytes => acc.outcome("size-sweep:round-trip-ok"),
+            Ok(back) => acc.violation(
+                "payload-roundtrip:bytes-differ",
+                format!("a {len}-byte '{pattern}' payload read back as {} bytes that differ", back.len()),
+                replay,
+            ),
+            Err(e) => acc.violation(
+                "payload-roundtrip:stored-object-unreadable",
+                format!("a {len}-byte '{pattern}' payload was stored but get fails: {e}"),
+                replay,
+            ),
+        }
+        let _ = rt.block_on(st.delete(&key));
+    }
+    let _ = std::fs::remove_dir_all(&dir);
+    acc
+}
+
+// ------------------------------------------------------------------------------------------
 // Parent
 // ------------------------------------------------------------------------------------------
 
@@ -790,6 +848,7 @@ fn run_child(job: &str) -> Value {
         "inspect" => job_inspect(parts[1], parts[2]),
         "group" => job_group(parts[1], parts[2], parts[3], parts[4], parts[5]).to_json(),
         "nocrash" => job_nocrash(parts[1]).to_json(),
+        "sizes" => job_sizes(parts[1], parts[2].parse().unwrap(), parts[3].parse().unwrap(), parts[4].parse().unwrap()).to_json(),
         "keys" => job_keys(parts[1].parse().unwrap(), parts[2].parse().unwrap()).to_json(),
         "sched" => sched::job_sched(parts[1], parts[2], parts[3], parts[4], parts[5]).to_json(),
         other => panic!("unknown job {other}"),
@@ -857,6 +916,13 @@ fn main() {
     }
     for class in payloads {
         jobs.push(format!("nocrash|{class}"));
+    }
+    // Payload-size sweep: every size in [k*32KiB - below, k*32KiB + above] x content pattern.
+    let (ks, below, above): (&[usize], usize, usize) = if thorough { (&[0, 1, 2, 3, 4, 8, 10], 64, 512) } else { (&[0, 1, 2], 16, 128) };
+    for pattern in ["const", "pair", "record", "counter", "random"] {
+        for k in ks {
+            jobs.push(format!("sizes|{pattern}|{k}|{below}|{above}"));
+        }
     }
     for first in 0..TOKENS.len() {
         jobs.push(format!("keys|{key_len}|{first}"));
